@@ -183,6 +183,10 @@ func (s *Sim) referencePlacement(a *MApp, tree *Snap) placeResult {
 		if q == "" {
 			continue
 		}
+		if strings.EqualFold(q, "root.@recovery@") && !a.Forced {
+			// the recovery queue is never the result of a rule for an application that is not force created
+			continue
+		}
 		if eq := tree.Queues[q]; eq != nil {
 			if !eq.Leaf || eq.Status == "Draining" || !s.submitAllowed(q, a.User, a.Groups) {
 				continue
